@@ -52,6 +52,20 @@ CHECKS = {
             "find_keywords/find_all equal an independent left-to-right reference on all 1.4*10^7 (data<=6, keyword<=3) pairs over "
             "6 symbols, on random keyword sets with arbitrary bytes and through get_keywords() on generated directories. "
             "Exploration, exhaustive inside the stated scope.", "2/C17"),
+    "C09": ("runtime monitoring: determinism monitor comparing canonical-tree digests across scan histories, PYTHONHASHSEED values "
+            "(subprocesses), shuffled directory enumeration (os.scandir/os.listdir wrappers), threads sharing one scanner with yield "
+            "injection, and CLI runs",
+            "Digests of the same (input, depth, configuration) are compared across five dimensions, on a corpus built from the tie "
+            "situations of the shipped keyword lists and registry configurations with include/exclude lists; earlier returned "
+            "trees are re-checked for mutation. Exploration; thread schedules are not controllable, alternations are counted.", "2/C09"),
+    "C18": ("runtime monitoring: behavioural registry oracle (independent walk of the keyword directory, AST-derived decoder set, pinned "
+            "baseline list, per-decoder canary scans, systematic + random include/exclude configurations, generated keyword directories)",
+            "Registry contents are compared with independently derived expectations for the default configuration, all singleton/pair "
+            "include/exclude configurations, ~10^5 random ones and ~10^4 generated keyword directories. Exploration.", "2/C18"),
+    "C20": ("runtime monitoring: round-trip and structural-equality oracles on random trees (single-field / shape mutations), CLI subprocess "
+            "runs compared with the in-process tree",
+            "JSON encoding/decoding and Node.__eq__ are checked on ~6*10^4 random trees with ~6*10^5 single-difference mutants; ~2000 "
+            "CLI runs (file/stdin, --json, default, --replace, --keywords) are compared with the library result. Exploration.", "2/C20"),
 }
 
 TODO = {}
